@@ -301,6 +301,27 @@ func recC09(c *ctx) {
 				verify()
 			}
 		}
+		// batch completeness probe: an all-valid batch whose keys and R values carry torsion (mixed order): valid under the
+		// cofactored rules singly, so the batch equation (which must clear the cofactor of EVERY term) has to hold too
+		if h%4 == 3 {
+			bv.Reset()
+			emit(vt.Ev{"op": "reset"})
+			if r.Intn(3) == 0 {
+				bv.ForceNoPublicKeyExpansion()
+				emit(vt.Ev{"op": "force"})
+			}
+			via := r.Intn(3)
+			for i := 0; i < 2+r.Intn(3); i++ {
+				forceOpts = &vopts{soA: r.Intn(2) == 0, soR: true, ncA: false, ncR: false, cl: false}
+				add(mk(2), via)
+				forceOpts = nil
+				if r.Intn(2) == 0 {
+					add(mk(0), r.Intn(3))
+				}
+			}
+			batchonly()
+			verify()
+		}
 		// batch soundness probe: two entries whose S are off by +1 and -1 (their errors cancel unless their random
 		// coefficients differ), adjacent or d positions apart among valid entries (coefficients must be independent
 		// across the whole batch, not only between neighbours)
